@@ -22,7 +22,9 @@ CLAIM = dict(
           "code by trace validation: hook H4 exports every real pass and the composed map, the compiled Lean driver "
           "must reproduce the API result bit for bit on every call; the property text is evaluated on every "
           "implementation result as the search oracle."),
-    note="Engines are parameters (Layer A): what a pass does is recorded, not modelled; the one-to-one identity clause is proved in C11.",
+    note=("Engines are parameters (Layer A): what a pass does is recorded, not modelled; the one-to-one identity clause is proved in C11 "
+          "for the F0/B0 fragment and evaluated literally (both arrays the identity, cursor unchanged at every position) on generated tables "
+          "whose rules keep one cell per character, including swap classes applied to runs and `=` rules."),
     technique="Lean 4 proof over a hand-written driver model + trace-validation correspondence (H4) + oracle search",
     design="DESIGN.md §7 C07")
 
